@@ -876,3 +876,9 @@ Definition asel_charge : asel := AS false false false true false.
 Definition t_ent_norm (e : gent) : tok :=
   match e with GNode id l => L [I 0; tN id; t_str l] | GEdge s t l => L [I 1; tN (N.min s t); tN (N.max s t); t_str l] end.
 Definition t_rec_norm (r : grec) : tok := tlist (fun sc : gsec * list gent => L [t_sec (fst sc); tset t_ent_norm (snd sc)]) r.
+
+(** molecule graphs carry no standard_order on their bonds (MolToGraph writes only 'order') *)
+Definition std_free (g : gr) : bool :=
+  forallb (fun e : N * N * eatt => match e_std (snd e) with None => true | Some _ => false end) (gedges g).
+Definition run_smart3 (r p : gr) (eo : list (N * N)) (core reindex explicit_h : bool) : tok :=
+  L [run_smart2 r p eo core reindex explicit_h; tbool (std_free r && std_free p)].
